@@ -1,12 +1,379 @@
-import QmiModel.Model.PubSub
+import QmiModel.Lemmas.C08Steps
+import QmiModel.Lemmas.C07Unsub
+import QmiModel.Lemmas.C08Quiet
 /-!
 # C08 — subscription state stays consistent through removal and disconnects
 
-Property theorems only, over `QmiModel.PubSub.step`.
+Property theorems only, over `QmiModel.PubSub.step` (all interleavings; unbounded contexts, connections, receivers).
 -/
 namespace QmiModel.PubSub
 
-/-- placeholder while the invariants are being built: the initial state has no subscriptions -/
-theorem init_no_subscriptions (c : Ctx) (k : Key) : (State.init.ctx c).lsubs k = [] := rfl
+/-! ## Failed subscriptions leave nothing behind -/
+
+/-- local publisher missing: `_subscribe_local` raises before touching any table -/
+theorem failed_local_subscribe_changes_nothing {s s' : State} {th : Th} {ch ch2 : Nat} {k : Key} {r : Rcv} {rest : List MOp} {o : Out}
+    (hmiss : (s.ctx th.ctx).objs k.ob ≠ .present)
+    (hs : microStep s th ch ch2 (.chkObj1 k r) rest = some (s', o)) :
+    s'.ctx = s.ctx ∧ s'.conn = s.conn ∧ s'.prog th = [.raise .subscription (progTag rest)] := by
+  simp only [microStep, hmiss, if_false, Option.some.injEq, Prod.mk.injEq] at hs
+  obtain ⟨rfl, -⟩ := hs
+  refine ⟨?_, rfl, by simp⟩
+  funext c
+  simp only [setProg_ctx, setCtx_ctx]
+  split
+  · rename_i e; rw [e]
+  · rfl
+
+/-- an error reply (or a local send failure) to a request never adds a subscription, and removes the request from both
+pending tables; a pending *subscribe* is marked failed, which makes every waiting `subscribe` call raise -/
+theorem failed_reply_leaves_nothing {cs cs' : CtxSt} {id : ReqId} {more : List MOp} {o : Out}
+    (h : PendOk cs) (hs : handleReplyStep cs id false = some (cs', more, o)) :
+    cs'.lsubs = cs.lsubs ∧ cs'.rsubs = cs.rsubs ∧ cs'.byId id = none ∧
+    ∀ pid po, cs.byId id = some pid → cs.pobj pid = some po →
+      (po.sub = true → cs'.byKey po.key = none ∧ cs'.pobj pid = some { po with done := some false } ∧ more = []) := by
+  have hr := (handleReplyStep_rsubs hs).1
+  have a4 := h.fresh
+  unfold handleReplyStep at hs
+  split at hs
+  · simp at hs
+  · rename_i pid hpid
+    split at hs
+    · simp at hs
+    · rename_i po hpo
+      have hlt : id < cs.nextReq := by
+        rcases Nat.lt_or_ge id cs.nextReq with hlt | hge
+        · exact hlt
+        · have := (a4 id hge).1; rw [hpid] at this; simp at this
+      split at hs
+      · rename_i hsub
+        simp only [Option.some.injEq, Prod.mk.injEq] at hs
+        obtain ⟨rfl, rfl, -⟩ := hs
+        refine ⟨?_, hr, by simp [upd], ?_⟩
+        · funext k; simp only [upd]; split
+          · rename_i e; rw [e]; simp
+          · rfl
+        · intro pid' po' h1 h2 _
+          rw [hpid] at h1; simp only [Option.some.injEq] at h1; subst h1
+          rw [hpo] at h2; simp only [Option.some.injEq] at h2; subst h2
+          simp [upd]
+      · rename_i hsub
+        split at hs
+        · simp only [Option.some.injEq, Prod.mk.injEq] at hs
+          obtain ⟨rfl, rfl, -⟩ := hs
+          refine ⟨rfl, hr, ?_, ?_⟩
+          · have : id ≠ cs.nextReq := Nat.ne_of_lt hlt
+            simp [upd, this]
+          · intro pid' po' h1 h2 h3
+            rw [hpid] at h1; simp only [Option.some.injEq] at h1; subst h1
+            rw [hpo] at h2; simp only [Option.some.injEq] at h2; subst h2
+            exact absurd h3 hsub
+        · simp only [Option.some.injEq, Prod.mk.injEq] at hs
+          obtain ⟨rfl, rfl, -⟩ := hs
+          refine ⟨rfl, hr, by simp [upd], ?_⟩
+          intro pid' po' h1 h2 h3
+          rw [hpid] at h1; simp only [Option.some.injEq] at h1; subst h1
+          rw [hpo] at h2; simp only [Option.some.injEq] at h2; subst h2
+          exact absurd h3 hsub
+
+/-- **failed subscribe leaves nothing**: when a `subscribe` call learns that it failed (`pending_request.wait()` returns
+`False`), the step changes no table, the call raises the subscription error, and its pending request object is no longer
+registered under any request id or key — in every reachable state, whatever caused the failure (unknown publisher,
+unknown or lost peer, connection closed while the request was outstanding). -/
+theorem failed_subscribe_leaves_nothing {s s' : State} {th : Th} {ch ch2 : Nat} {pid : ReqId} {rest : List MOp} {o : Out} {po : PObj}
+    (hreach : Reach s) (hpo : (s.ctx th.ctx).pobj pid = some po) (hfail : po.done = some false)
+    (hs : microStep s th ch ch2 (.wait pid) rest = some (s', o)) :
+    s'.ctx = s.ctx ∧ s'.conn = s.conn ∧ s'.prog th = [.raise .subscription (progTag rest)] ∧
+    (∀ id, (s.ctx th.ctx).byId id ≠ some pid) ∧ (∀ k, (s.ctx th.ctx).byKey k ≠ some pid) := by
+  have hp := pendInv_reach hreach th.ctx
+  simp only [microStep, hpo, hfail, Option.some.injEq, Prod.mk.injEq] at hs
+  obtain ⟨rfl, -⟩ := hs
+  refine ⟨?_, rfl, by simp, ?_, ?_⟩
+  · funext c
+    simp only [setProg_ctx, setCtx_ctx]
+    split
+    · rename_i e; rw [e]
+    · rfl
+  · intro id hid
+    have h1 := hp.byId_key id pid po hid hpo
+    have h2 := (hp.byKey_obj _ pid po h1 hpo).2
+    rw [hfail] at h2; simp at h2
+  · intro k hk
+    have h2 := (hp.byKey_obj k pid po hk hpo).2
+    rw [hfail] at h2; simp at h2
+
+/-- publisher side of a rejected request: when the double-check of `_handle_subscription_request` fails, the remote
+subscriber that was just added is taken out again before the failure reply is sent -/
+theorem rejected_request_leaves_no_remote_subscriber {s s' : State} {th : Th} {ch ch2 : Nat} {src : Peer} {ob : Obj} {sg : Sg}
+    {rest : List MOp} {o : Out} (hs : microStep s th ch ch2 (.removeRemote src ob sg) rest = some (s', o)) :
+    src ∉ (s'.ctx th.ctx).rsubs ⟨ob, sg⟩ := by
+  simp only [microStep, Option.some.injEq, Prod.mk.injEq] at hs
+  obtain ⟨rfl, -⟩ := hs
+  simp [upd]
+
+/-! ## Removing a publisher ends the subscriptions on it at both ends -/
+
+/-- publisher side: the lock section of `handle_object_removed` empties the local and the remote table for every signal
+of the object, and schedules one removal notice for every remote subscriber of every signal of the object -/
+theorem removal_ends_publisher_side {s s' : State} {th : Th} {ch ch2 : Nat} {ob : Obj} {rest : List MOp} {o : Out}
+    (hreach : Reach s) (hs : microStep s th ch ch2 (.objRemoved ob) rest = some (s', o)) :
+    (∀ sg, (s'.ctx th.ctx).rsubs ⟨ob, sg⟩ = [] ∧ (s'.ctx th.ctx).lsubs ⟨.name th.ctx, ob, sg⟩ = []) ∧
+    (∀ sg d, d ∈ (s.ctx th.ctx).rsubs ⟨ob, sg⟩ →
+        ∃ ns, s'.prog th = .notify ns ob :: rest ∧ (sg, d) ∈ ns) := by
+  have hdom := rdomInv_reach hreach th.ctx
+  simp only [microStep, Option.some.injEq, Prod.mk.injEq] at hs
+  obtain ⟨rfl, -⟩ := hs
+  refine ⟨fun sg => by simp, ?_⟩
+  intro sg d hd
+  have hmem : (sg, d) ∈ notifyList (s.ctx th.ctx) ob := by
+    simp only [notifyList, List.mem_flatMap, List.mem_filter, List.mem_map, decide_eq_true_eq]
+    refine ⟨⟨ob, sg⟩, ⟨hdom ⟨ob, sg⟩ (by intro e; rw [e] at hd; simp at hd), rfl⟩, d, hd, rfl⟩
+  refine ⟨notifyList (s.ctx th.ctx) ob, ?_, hmem⟩
+  simp only [setProg_prog, if_true]
+  split
+  · rename_i e; rw [e] at hmem; simp at hmem
+  · rfl
+
+/-- every scheduled notice is handed to the event loop (or its peer is no longer connected — then
+`handle_peer_context_removed` deals with that peer, see `disconnect_ends_this_side`) -/
+theorem removal_notice_is_sent {s s' : State} {th : Th} {sg : Sg} {d : Peer} {ns : List (Sg × Peer)} {ob : Obj} {rest : List MOp} {o : Out}
+    (hmem : (sg, d) ∈ ns) (hs : microStep s th sg (peerCode d) (.notify ns ob) rest = some (s', o)) :
+    ∃ x ∈ ns, x.1 = sg ∧ peerCode x.2 = peerCode d ∧
+      (((s.ctx th.ctx).peers x.2).isSome = true → ∃ tail, s'.prog th = .enq x.2 (.removed ob x.1) :: tail) := by
+  simp only [microStep] at hs
+  split at hs
+  · rename_i hf
+    have := List.find?_eq_none.1 hf (sg, d) hmem
+    simp at this
+  · rename_i x hf
+    have hx := List.find?_some hf
+    have hxm := List.mem_of_find?_eq_some hf
+    simp only [decide_eq_true_eq] at hx
+    refine ⟨x, hxm, hx.1, hx.2, ?_⟩
+    intro hp
+    simp only [hp, if_true, Option.some.injEq, Prod.mk.injEq] at hs
+    obtain ⟨rfl, -⟩ := hs
+    exact ⟨_, by simp; rfl⟩
+
+/-- subscriber side: processing the removal notice empties the table entry of that signal -/
+theorem removal_notice_ends_subscriber_side {s s' : State} {th : Th} {ch ch2 : Nat} {k : Key} {rest : List MOp} {o : Out}
+    (hs : microStep s th ch ch2 (.sigRemoved k) rest = some (s', o)) : (s'.ctx th.ctx).lsubs k = [] := by
+  simp only [microStep, Option.some.injEq, Prod.mk.injEq] at hs
+  obtain ⟨rfl, -⟩ := hs
+  simp [upd]
+
+/-! ## Losing the connection ends the subscriptions at both ends -/
+
+/-- at either end: `handle_peer_context_removed(n)` drops `n` from every remote-subscriber set and empties every local
+entry whose publisher context is `n` -/
+theorem disconnect_ends_this_side {s s' : State} {th : Th} {ch ch2 : Nat} {n : Peer} {rest : List MOp} {o : Out}
+    (hs : microStep s th ch ch2 (.peerRemoved n) rest = some (s', o)) :
+    (∀ κ, n ∉ (s'.ctx th.ctx).rsubs κ) ∧ (∀ k, k.pc = n → (s'.ctx th.ctx).lsubs k = []) := by
+  simp only [microStep, Option.some.injEq, Prod.mk.injEq] at hs
+  obtain ⟨rfl, -⟩ := hs
+  exact ⟨fun κ => by simp [peerRemovedStep], fun k hk => by simp [peerRemovedStep, hk]⟩
+
+/-- both ways a connection end is torn down (explicit `disconnect_from_peer`, end-of-stream from the other side) run
+exactly: unregister the peer, `handle_peer_context_removed`, close the socket — so the cleanup above always happens,
+and closing makes the other end see end-of-stream (`Act.eof` becomes enabled there once it has read what was sent) -/
+theorem disconnect_runs_cleanup {s s' : State} {cn : ConnId} {cli : Bool} {o : Out}
+    (hs : step s (.eof cn cli) = some (s', o)) :
+    s'.prog (.sock ((s.conn cn).half cli).owner) =
+      [.popPeer (srcName s cn cli), .peerRemoved (srcName s cn cli), .closeConn cn cli] := by
+  simp only [step] at hs
+  split at hs
+  · simp only [Option.some.injEq, Prod.mk.injEq] at hs
+    obtain ⟨rfl, -⟩ := hs
+    simp
+  · simp at hs
+
+theorem close_is_seen_by_other_end {s s' : State} {th : Th} {ch ch2 : Nat} {cn : ConnId} {cli : Bool} {rest : List MOp} {o : Out}
+    (hs : microStep s th ch ch2 (.closeConn cn cli) rest = some (s', o)) :
+    ((s'.conn cn).half cli).isOpen = false ∧ ((s'.conn cn).half cli).pend = [] ∧
+    s'.prog th = (((s.conn cn).half cli).pend.map fun id => MOp.handleReply id false) ++ rest := by
+  simp only [microStep, Option.some.injEq, Prod.mk.injEq] at hs
+  obtain ⟨rfl, -⟩ := hs
+  cases cli <;> simp [Conn.half, Conn.setHalf, upd]
+
+
+/-! ## Quiescent consistency
+
+`Quiescent s`: nothing in flight (Lemmas/C08Quiet).  `Consistent s`: for live contexts `a`, `p` with a registered
+connection `cn` from `a` to `p`, and every (publisher, signal): `p` has `a` as remote subscriber ⇔ `a` has a receiver. -/
+
+/-- the full-strength statement of the property -/
+def QuiescentConsistency : Prop := ∀ s, Reach s → Quiescent s → Consistent s
+
+/-- The witness (DESIGN §7 l): context 1 subscribes receiver 5 to object 0 / signal 0 of context 0 while context 0
+removes object 0.  The socket thread of context 0 has passed the double-check of `_handle_subscription_request`
+(`reqChk2`) when the removing thread runs `handle_object_removed` and enqueues the removal notice; only then does the
+socket thread enqueue its success reply.  Context 1 processes the notice first (nothing to drop), then the reply. -/
+def raceTrace : List Act := [
+  .begin 0 0 (.makeObj 0), .micro (.user 0 0) 0 0, .micro (.user 0 0) 0 0, .micro (.user 0 0) 0 0,
+  .connect 1 0,
+  .begin 1 0 (.subscribe 0 0 0 5),
+  .micro (.user 1 0) 0 0,            -- _subscribe_remote lock section: request 0 created
+  .micro (.user 1 0) 0 0,            -- has_peer_context
+  .micro (.user 1 0) 0 0,            -- enqueue on the event loop of context 1
+  .cb 1 true,                        -- request sent
+  .arrive 0 false,                   -- context 0 reads the request
+  .micro (.sock 0) 0 0,              -- check: publisher exists
+  .micro (.sock 0) 0 0,              -- _add_remote_subscriber
+  .micro (.sock 0) 0 0,              -- double-check: publisher still exists
+  .begin 0 1 (.removeObj 0),
+  .micro (.user 0 1) 0 0,            -- mark
+  .micro (.user 0 1) 0 0,            -- handle_object_removed lock section
+  .micro (.user 0 1) 0 1,            -- has_peer_context for the notice (signal 0, peer alias 0)
+  .micro (.user 0 1) 0 0,            -- notice enqueued
+  .micro (.user 0 1) 0 0,            -- delete name
+  .micro (.user 0 1) 0 0,            -- return
+  .micro (.sock 0) 0 0,              -- has_peer_context for the reply
+  .micro (.sock 0) 0 0,              -- reply enqueued: *behind* the notice
+  .cb 0 true, .cb 0 true,            -- notice, then reply, written to the connection
+  .arrive 0 true, .micro (.sock 1) 0 0,     -- notice processed: nothing to drop
+  .arrive 0 true, .micro (.sock 1) 0 0,     -- success reply processed: receiver 5 installed
+  .micro (.user 1 0) 0 0, .micro (.user 1 0) 0 0]   -- subscribe returns normally
+
+theorem raceTrace_below : ∀ a ∈ raceTrace, a.below 2 2 := by
+  intro a ha
+  simp only [raceTrace, List.mem_cons, List.not_mem_nil, or_false] at ha
+  rcases ha with rfl | rfl | rfl | rfl | rfl | rfl | rfl | rfl | rfl | rfl | rfl | rfl | rfl | rfl | rfl | rfl | rfl | rfl |
+    rfl | rfl | rfl | rfl | rfl | rfl | rfl | rfl | rfl | rfl | rfl | rfl | rfl <;> simp [Act.below, Th.below]
+
+/-- **the full statement is false of the faithful model** -/
+theorem quiescent_consistency_false : ¬ QuiescentConsistency := by
+  intro hq
+  have hrun : (run State.init raceTrace).isSome = true := by decide
+  obtain ⟨s, hs⟩ := Option.isSome_iff_exists.1 hrun
+  have hreach : Reach s := reach_run Reach.init hs
+  have hown : OwnersBelow State.init 2 := by intro cn cli; cases cli <;> simp [State.init, Conn.half, Half.init]
+  obtain ⟨hctx, hprog⟩ := run_bounded (B := 2) (T := 2) (by decide) raceTrace hs raceTrace_below hown
+  -- facts about the final state, by evaluation
+  have ev1 : (run State.init raceTrace).map (fun s =>
+      ((s.ctx 0).alive, (s.ctx 1).alive, (s.ctx 0).loopQ, (s.ctx 1).loopQ)) = some (true, true, [], []) := by decide
+  have ev2 : (run State.init raceTrace).map (fun s =>
+      ((s.prog (.user 0 0)).isEmpty, (s.prog (.user 0 1)).isEmpty, (s.prog (.user 1 0)).isEmpty, (s.prog (.user 1 1)).isEmpty,
+       (s.prog (.sock 0)).isEmpty, (s.prog (.sock 1)).isEmpty)) = some (true, true, true, true, true, true) := by decide
+  have ev3 : (run State.init raceTrace).map (fun s =>
+      ((s.ctx 1).peers (.name 0), (s.ctx 0).rsubs ⟨0, 0⟩, (s.ctx 1).lsubs ⟨.name 0, 0, 0⟩)) = some (some 0, [], [5]) := by decide
+  have ev4 : (run State.init raceTrace).map (fun s =>
+      ((s.ctx 0).nextReq, (s.ctx 1).nextReq, (s.ctx 1).byId 0, s.nextConn)) = some (0, 1, none, 1) := by decide
+  have ev5 : (run State.init raceTrace).map (fun s =>
+      ((s.conn 0).cli.inbox, (s.conn 0).srv.inbox, (s.conn 0).cli.isOpen, (s.conn 0).srv.isOpen)) = some ([], [], true, true) := by decide
+  rw [hs] at ev1 ev2 ev3 ev4 ev5
+  simp only [Option.map_some, Option.some.injEq, Prod.mk.injEq] at ev1 ev2 ev3 ev4 ev5
+  obtain ⟨e1, e2, e3, e4⟩ := ev1
+  simp only [List.isEmpty_iff] at ev2
+  obtain ⟨e5, e6, e7, e8, e9, e10⟩ := ev2
+  obtain ⟨e11, e12, e13⟩ := ev3
+  obtain ⟨e14, e15, e16, e17⟩ := ev4
+  obtain ⟨e18, e19, e20, e21⟩ := ev5
+  have lt_two : ∀ {n : Nat}, n < 2 → n = 0 ∨ n = 1 := by intro n h; omega
+  have lt_one : ∀ {n : Nat}, n < 1 → n = 0 := by intro n h; omega
+  have hcons := hq s hreach ?_
+  · have := (hcons 1 0 0 0 0 e2 e1 e11).2 (by rw [e13]; simp)
+    rw [e12] at this; simp at this
+  · -- quiescence of the final state
+    have hpendInv := pendInv_reach hreach
+    have hcases : ∀ c : Nat, c = 0 ∨ c = 1 ∨ 2 ≤ c := by intro c; omega
+    have hinit : ∀ c, 2 ≤ c → s.ctx c = CtxSt.init := fun c hc => by rw [hctx c hc]; rfl
+    constructor
+    · intro th _
+      by_cases hb : th.below 2 2
+      · cases th with
+        | user c t =>
+          simp only [Th.below] at hb
+          have hc : c = 0 ∨ c = 1 := lt_two hb.1
+          have ht : t = 0 ∨ t = 1 := lt_two hb.2
+          rcases hc with rfl | rfl <;> rcases ht with rfl | rfl <;> assumption
+        | sock c =>
+          simp only [Th.below] at hb
+          have hc : c = 0 ∨ c = 1 := lt_two hb
+          rcases hc with rfl | rfl <;> assumption
+      · rw [hprog th hb]; rfl
+    · intro c _
+      rcases hcases c with rfl | rfl | hc
+      · exact e3
+      · exact e4
+      · rw [hinit c hc]; rfl
+    · intro c id _
+      rcases hcases c with rfl | rfl | hc
+      · rcases Nat.lt_or_ge id (s.ctx 0).nextReq with h | h
+        · rw [e14] at h; exact absurd h (Nat.not_lt_zero _)
+        · exact ((hpendInv 0).fresh id h).1
+      · rcases Nat.lt_or_ge id (s.ctx 1).nextReq with h | h
+        · rw [e15] at h
+          have : id = 0 := lt_one h
+          subst this; exact e16
+        · exact ((hpendInv 1).fresh id h).1
+      · rw [hinit c hc]; rfl
+    · intro cn cli hlt hopen _
+      rw [e17] at hlt
+      have : cn = 0 := lt_one hlt
+      subst this
+      cases cli <;> simp only [Conn.half, Bool.not_true, Bool.not_false] at hopen ⊢
+      · exact ⟨e19, e20⟩
+      · exact ⟨e18, e21⟩
+
+
+/-! ## No subscribe / unsubscribe call blocks for ever (local layer)
+
+`unsubscribe` never waits (its program contains no `wait`).  A `subscribe` call waits in `wait pid` until the pending
+request object `pid` is completed.  The three ways in which an outstanding request is answered are shown below to
+release the waiters; that *every* outstanding request does reach one of them (carrier invariant over event loop,
+connection and the peer's socket thread, as for C01) is not mechanised — on the implementation side it is observed as
+"the deterministic scheduler never reports a deadlock" (clause `blocks-forever`). -/
+
+/-- (1) a reply — success, failure, or the error reply generated for a closed connection — to a *subscribe* request
+completes the pending object, after which `wait` is enabled and returns the reply's verdict -/
+theorem reply_releases_waiters {s : State} {th th' : Th} {id pid : ReqId} {ok : Bool} {po : PObj} {rest rest' : List MOp}
+    (hc : th'.ctx = th.ctx)
+    (hid : (s.ctx th.ctx).byId id = some pid) (hpo : (s.ctx th.ctx).pobj pid = some po) (hsub : po.sub = true) :
+    ∃ s' o, microStep s th 0 0 (.handleReply id ok) rest = some (s', o) ∧
+      (s'.ctx th.ctx).pobj pid = some { po with done := some ok } ∧
+      (microStep s' th' 0 0 (.wait pid) rest').isSome = true := by
+  simp only [microStep, handleReplyStep, hid, hpo, hsub, if_true]
+  refine ⟨_, _, rfl, by simp [upd], ?_⟩
+  simp only [setProg_ctx, setCtx_ctx, hc, if_true, upd]
+  cases ok <;> simp
+
+/-- (2) a request whose local send fails (peer unknown, or `sendall` raises in the socket thread) is answered at once by
+an error reply handled in the same thread -/
+theorem send_failure_answers_request (id : ReqId) (ob : Obj) (sg : Sg) (b : Bool) :
+    onSendFail (.subReq id ob sg b) = [.handleReply id false] := rfl
+
+/-- (3) closing a connection end answers every request registered on it (`_clear_pending_requests`) -/
+theorem closing_answers_registered_requests {s s' : State} {th : Th} {ch ch2 : Nat} {cn : ConnId} {cli : Bool}
+    {rest : List MOp} {o : Out} (hs : microStep s th ch ch2 (.closeConn cn cli) rest = some (s', o)) :
+    ∀ id ∈ ((s.conn cn).half cli).pend, MOp.handleReply id false ∈ s'.prog th := by
+  intro id hid
+  rw [(close_is_seen_by_other_end hs).2.2]
+  exact List.mem_append_left _ (List.mem_map.2 ⟨id, hid, rfl⟩)
+
+/-- a request is registered on the connection in the very step that writes it to the connection -/
+theorem sent_request_is_registered {s s1 : State} {c : Ctx} {d : Peer} {id : ReqId} {ob : Obj} {sg : Sg} {b : Bool}
+    {cn : ConnId} {pr : List MOp} (hp : (s.ctx c).peers d = some cn)
+    (hs : smSendStep s c d (.subReq id ob sg b) true = some (s1, pr)) :
+    id ∈ ((s1.conn cn).half d.isName).pend := by
+  simp only [smSendStep, hp, if_true, Msg.reqId?, Option.some.injEq, Prod.mk.injEq] at hs
+  obtain ⟨rfl, -⟩ := hs
+  cases hd : d.isName <;> (simp only [upd, if_true]; split) <;> simp [Conn.half, Conn.setHalf]
+
+/-- **subscribe terminates — partial** (missing: the carrier invariant "every outstanding request is in exactly one
+of: a pending send of its thread, the event-loop queue, the connection (and then registered in `pend`), the peer's
+handler, the reply's way back" together with its rank argument).  What is proved: each of the three kinds of answer
+named by the property releases the waiting call. -/
+theorem subscribe_terminates_partial :
+    (∀ (s : State) (th th' : Th) (id pid : ReqId) (ok : Bool) (po : PObj) (rest rest' : List MOp),
+        th'.ctx = th.ctx → (s.ctx th.ctx).byId id = some pid → (s.ctx th.ctx).pobj pid = some po → po.sub = true →
+        ∃ s' o, microStep s th 0 0 (.handleReply id ok) rest = some (s', o) ∧
+          (microStep s' th' 0 0 (.wait pid) rest').isSome = true) ∧
+    (∀ id ob sg b, onSendFail (.subReq id ob sg b) = [.handleReply id false]) ∧
+    (∀ (s s' : State) (th : Th) (ch ch2 : Nat) (cn : ConnId) (cli : Bool) (rest : List MOp) (o : Out),
+        microStep s th ch ch2 (.closeConn cn cli) rest = some (s', o) →
+        ∀ id ∈ ((s.conn cn).half cli).pend, MOp.handleReply id false ∈ s'.prog th) := by
+  refine ⟨?_, fun _ _ _ _ => rfl, fun s s' th ch ch2 cn cli rest o hs => closing_answers_registered_requests hs⟩
+  intro s th th' id pid ok po rest rest' hc hid hpo hsub
+  obtain ⟨s', o, h1, -, h3⟩ := reply_releases_waiters (ok := ok) (rest := rest) (rest' := rest') hc hid hpo hsub
+  exact ⟨s', o, h1, h3⟩
 
 end QmiModel.PubSub
